@@ -1372,8 +1372,11 @@ static void struct_initializer2(Token **rest, Token *tok, Initializer *init, Mem
 }
 
 static void union_initializer(Token **rest, Token *tok, Initializer *init) {
+  // Unnamed bit-fields take no part in initialization (C11 6.7.9p9).
+  Member *first = skip_unnamed_bitfields(init->ty->members);
+
   // A union without members (a GNU extension) has nothing to initialize.
-  if (!init->ty->members) {
+  if (!first) {
     if (!equal(tok, "{"))
       error_tok(tok, "invalid initializer");
     tok = tok->next;
@@ -1390,7 +1393,7 @@ static void union_initializer(Token **rest, Token *tok, Initializer *init) {
   // You can initialize other member using a designated initializer.
   if (equal(tok, "{")) {
     tok = tok->next;
-    select_union_member(init, init->ty->members);
+    select_union_member(init, first);
 
     for (int i = 0; !consume_end(rest, tok); i++) {
       if (i > 0)
@@ -1401,7 +1404,7 @@ static void union_initializer(Token **rest, Token *tok, Initializer *init) {
         select_union_member(init, mem);
         designation(&tok, tok, init->children[mem->idx]);
       } else if (i == 0) {
-        initializer2(&tok, tok, init->children[0]);
+        initializer2(&tok, tok, init->children[first->idx]);
       } else {
         tok = skip_excess_element(tok);
       }
@@ -1409,11 +1412,8 @@ static void union_initializer(Token **rest, Token *tok, Initializer *init) {
     return;
   }
 
-  select_union_member(init, init->ty->members);
-
-  {
-    initializer2(rest, tok, init->children[0]);
-  }
+  select_union_member(init, first);
+  initializer2(rest, tok, init->children[first->idx]);
 }
 
 // initializer = string-initializer | array-initializer
@@ -1596,7 +1596,7 @@ static Node *create_lvar_init(Initializer *init, Type *ty, InitDesg *desg, Token
   }
 
   if (ty->kind == TY_UNION && !init->expr) {
-    Member *mem = init->mem ? init->mem : ty->members;
+    Member *mem = init->mem ? init->mem : skip_unnamed_bitfields(ty->members);
     if (!mem)
       return new_node(ND_NULL_EXPR, tok);  // a union without members
     InitDesg desg2 = {desg, 0, mem};
